@@ -21,6 +21,7 @@ theorem inv_step {s s' : State} {op : Op} (hi : Inv s) (h : step s op = .ok s') 
   | mlay a l kind dt fill => exact inv_mlay hi h
   | ldrop l => exact inv_ldrop hi h
   | mk a kind dt it n v => exact inv_mk hi h
+  | copy a b full => exact inv_copy hi h
 
 theorem inv_run {ops : List Op} {s s' : State} (hi : Inv s) (h : run s ops = .ok s') : Inv s' := by
   induction ops generalizing s with
